@@ -15,6 +15,7 @@ import (
 	"strings"
 
 	"golang.org/x/tools/go/cfg"
+	"golang.org/x/tools/go/types/typeutil"
 )
 
 type EvKind int
@@ -76,6 +77,7 @@ type Path struct {
 	Exit   ExitKind
 	Ret    []*Term
 	RetPos token.Pos
+	Out    map[int]*Term // final pointee value of pointer-to-struct parameters written on this path
 }
 
 // OK reports whether the path's effects are committed (not reverted).
@@ -181,6 +183,7 @@ func (p *Prog) PathsOf(f *Func) []*Path {
 			p.walk(f, g.Blocks[0], st, &out)
 		}
 	}()
+	out = p.splice(f, out)
 	p.pathsMemo[f] = out
 	p.Stats.Paths += len(out)
 	return out
@@ -260,6 +263,13 @@ func (p *Prog) walk(f *Func, b *cfg.Block, st *pstate, out *[]*Path) {
 			p.walkSwitchCase(f, b, cond, st, out)
 			return
 		}
+		if b.Kind != cfg.KindForLoop && p.needsSplit(f, cond) {
+			// a module call in a later operand of && / || runs only when the earlier operands let it
+			p.branchSC(f, cond, cond, st,
+				func(s *pstate) { p.walk(f, b.Succs[0], s, out) },
+				func(s *pstate) { p.walk(f, b.Succs[1], s, out) })
+			return
+		}
 		ct := boolSimplify(st.ev.eval(cond))
 		if b.Kind == cfg.KindForLoop {
 			// zero or one iteration; loop conditions (iterator.Valid()) are not facts
@@ -278,6 +288,7 @@ func (p *Prog) walk(f *Func, b *cfg.Block, st *pstate, out *[]*Path) {
 				}
 			}
 			p.walk(f, b.Succs[1], s2, out)
+			p.bindIndexLoop(f, b.Stmt, st)
 			p.walk(f, b.Succs[0], st, out)
 			return
 		}
@@ -310,6 +321,94 @@ func (p *Prog) walk(f *Func, b *cfg.Block, st *pstate, out *[]*Path) {
 			}
 			p.walk(f, b.Succs[1], s2, out)
 		}
+	}
+}
+
+// needsSplit: the condition is a short-circuit expression with a module (or interface) call in an
+// operand that is not evaluated first.
+func (p *Prog) needsSplit(f *Func, cond ast.Expr) bool {
+	e := ast.Unparen(cond)
+	for {
+		u, ok := e.(*ast.UnaryExpr)
+		if !ok || u.Op != token.NOT {
+			break
+		}
+		e = ast.Unparen(u.X)
+	}
+	be, ok := e.(*ast.BinaryExpr)
+	if !ok || (be.Op != token.LAND && be.Op != token.LOR) {
+		return false
+	}
+	if p.needsSplit(f, be.X) {
+		return true
+	}
+	info := f.Pkg.TypesInfo
+	found := false
+	ast.Inspect(be.Y, func(n ast.Node) bool {
+		c, ok := n.(*ast.CallExpr)
+		if !ok || found {
+			return !found
+		}
+		switch fo := typeutil.Callee(info, c).(type) {
+		case *types.Func:
+			if g := p.FuncByObj[fo]; g != nil && g.Body != nil && g.isHandWritten() && g.pkgName() != "types" {
+				found = true
+			}
+			if sig, ok := fo.Type().(*types.Signature); ok && sig.Recv() != nil {
+				if _, isIface := sig.Recv().Type().Underlying().(*types.Interface); isIface {
+					found = true
+				}
+			}
+		}
+		return !found
+	})
+	return found
+}
+
+// branchSC walks a short-circuit condition operand by operand.
+func (p *Prog) branchSC(f *Func, e ast.Expr, cond ast.Expr, st *pstate, onTrue, onFalse func(*pstate)) {
+	e = ast.Unparen(e)
+	if u, ok := e.(*ast.UnaryExpr); ok && u.Op == token.NOT {
+		p.branchSC(f, u.X, cond, st, onFalse, onTrue)
+		return
+	}
+	if be, ok := e.(*ast.BinaryExpr); ok && be.Op == token.LAND {
+		p.branchSC(f, be.X, cond, st, func(s *pstate) { p.branchSC(f, be.Y, cond, s, onTrue, onFalse) }, onFalse)
+		return
+	}
+	if be, ok := e.(*ast.BinaryExpr); ok && be.Op == token.LOR {
+		p.branchSC(f, be.X, cond, st, onTrue, func(s *pstate) { p.branchSC(f, be.Y, cond, s, onTrue, onFalse) })
+		return
+	}
+	ct := boolSimplify(st.ev.eval(e))
+	if !pureTerm(ct) {
+		s2 := st.clone()
+		onTrue(st)
+		onFalse(s2)
+		return
+	}
+	ct = st.reduce(ct)
+	switch st.decide(ct) {
+	case 1:
+		for _, fa := range condFacts(ct, true) {
+			st.addFact(fa, cond)
+		}
+		onTrue(st)
+	case 0:
+		for _, fa := range condFacts(ct, false) {
+			st.addFact(fa, cond)
+		}
+		onFalse(st)
+	default:
+		s2 := st.clone()
+		for _, fa := range condFacts(ct, true) {
+			st.addFact(fa, cond)
+		}
+		onTrue(st)
+		for _, fa := range condFacts(ct, false) {
+			s2.addFact(fa, cond)
+		}
+		onFalse(s2)
 	}
 }
 
@@ -439,6 +538,85 @@ func (p *Prog) bindRange(f *Func, s ast.Stmt, st *pstate) {
 	if rs.Value != nil {
 		bind(rs.Value, "elem")
 	}
+}
+
+// bindIndexLoop: in the body of "for i := 0; i < len(x); i++" the counter is the position under
+// iteration, as the key of "for i := range x" is.
+func (p *Prog) bindIndexLoop(f *Func, s ast.Stmt, st *pstate) {
+	fs, ok := s.(*ast.ForStmt)
+	if !ok || fs.Init == nil || fs.Cond == nil || fs.Post == nil {
+		return
+	}
+	info := f.Pkg.TypesInfo
+	as, ok := fs.Init.(*ast.AssignStmt)
+	if !ok || len(as.Lhs) != 1 || len(as.Rhs) != 1 {
+		return
+	}
+	id, ok := as.Lhs[0].(*ast.Ident)
+	if !ok {
+		return
+	}
+	if tv, ok := info.Types[as.Rhs[0]]; !ok || tv.Value == nil || tv.Value.ExactString() != "0" {
+		return
+	}
+	var v *types.Var
+	if o, ok := info.Defs[id].(*types.Var); ok {
+		v = o
+	} else if o, ok := info.Uses[id].(*types.Var); ok {
+		v = o
+	}
+	if v == nil {
+		return
+	}
+	inc, ok := fs.Post.(*ast.IncDecStmt)
+	if !ok || inc.Tok != token.INC {
+		return
+	}
+	if pid, ok := inc.X.(*ast.Ident); !ok || info.Uses[pid] != v {
+		return
+	}
+	be, ok := ast.Unparen(fs.Cond).(*ast.BinaryExpr)
+	if !ok || be.Op != token.LSS {
+		return
+	}
+	if cid, ok := ast.Unparen(be.X).(*ast.Ident); !ok || info.Uses[cid] != v {
+		return
+	}
+	call, ok := ast.Unparen(be.Y).(*ast.CallExpr)
+	if !ok || len(call.Args) != 1 {
+		return
+	}
+	if b, ok := typeutil.Callee(info, call).(*types.Builtin); !ok || b.Name() != "len" {
+		return
+	}
+	// the counter must not be assigned in the body
+	assigned := false
+	ast.Inspect(fs.Body, func(n ast.Node) bool {
+		switch x := n.(type) {
+		case *ast.AssignStmt:
+			for _, l := range x.Lhs {
+				if lid, ok := l.(*ast.Ident); ok && (info.Uses[lid] == v || info.Defs[lid] == v) {
+					assigned = true
+				}
+			}
+		case *ast.IncDecStmt:
+			if lid, ok := x.X.(*ast.Ident); ok && info.Uses[lid] == v {
+				assigned = true
+			}
+		case *ast.UnaryExpr:
+			if x.Op == token.AND {
+				if lid, ok := x.X.(*ast.Ident); ok && info.Uses[lid] == v {
+					assigned = true
+				}
+			}
+		}
+		return true
+	})
+	if assigned {
+		return
+	}
+	q := &evaluator{p: p, f: f, st: st, busy: map[*types.Var]bool{}, quiet: true}
+	st.vars[v] = mk("key", q.eval(call.Args[0])).withType(v.Type())
 }
 
 // execNode executes one CFG node; returns true if the path ended.
@@ -679,7 +857,180 @@ func (p *Prog) finish(f *Func, st *pstate, rs []*Term, pos token.Pos, out *[]*Pa
 		}
 	}
 	st.emit(&Event{Kind: EvReturn, Pos: pos})
-	*out = append(*out, &Path{Fn: f, Events: st.events, Exit: exit, Ret: rs, RetPos: pos})
+	pa := &Path{Fn: f, Events: st.events, Exit: exit, Ret: rs, RetPos: pos}
+	for i, pr := range f.Params {
+		if pt, ok := types.Unalias(pr.Type()).(*types.Pointer); ok && namedStruct(pt.Elem()) != "" {
+			if t, written := st.vars[pr]; written {
+				if pa.Out == nil {
+					pa.Out = map[int]*Term{}
+				}
+				pa.Out[i] = t
+			}
+		}
+	}
+	*out = append(*out, pa)
+}
+
+// resEquations: for a module function with an error result and further results, the results that are
+// the same pass-through term (a parameter, or a result of another module call on the parameters) on
+// every committed path; a nil entry means no equation. The caller's view of such a result is that term.
+func (p *Prog) resEquations(g *Func) []*Term {
+	if eq, ok := p.resEqMemo[g]; ok {
+		return eq
+	}
+	p.resEqMemo[g] = nil
+	if p.pathsBusy[g] || !g.isHandWritten() || g.Body == nil || len(g.Res) < 2 || g.pkgName() != "keeper" {
+		return nil
+	}
+	ei, hasErr := g.hasErrorResult()
+	if !hasErr {
+		return nil
+	}
+	eq := make([]*Term, len(g.Res))
+	dead := make([]bool, len(g.Res))
+	n := 0
+	for _, pa := range p.PathsOf(g) {
+		if !pa.OK() || len(pa.Ret) != len(g.Res) {
+			if pa.OK() {
+				return nil
+			}
+			continue
+		}
+		n++
+		for k, r := range pa.Ret {
+			if k == ei || dead[k] {
+				continue
+			}
+			pass := r.Op == "" && strings.HasPrefix(r.At, "P")
+			if r.Op == "res" && len(r.A) == 2 {
+				if h := p.FuncNamed(r.A[1].Op); h != nil && h != g {
+					pass = true
+				}
+			}
+			if !pass || (eq[k] != nil && !eq[k].Eq(r)) {
+				dead[k], eq[k] = true, nil
+				continue
+			}
+			eq[k] = r
+		}
+	}
+	any := false
+	for k := range eq {
+		if dead[k] {
+			eq[k] = nil
+		}
+		if eq[k] != nil {
+			any = true
+		}
+	}
+	if n == 0 || !any {
+		return nil
+	}
+	p.resEqMemo[g] = eq
+	return eq
+}
+
+// predDef: the boolean definition of a pure module predicate (a function with a single bool result,
+// no effects and no dynamic calls), as a term over its parameters: the disjunction over its paths of
+// the path's branch facts together with the returned expression. nil if g is not such a predicate.
+func (p *Prog) predDef(g *Func) *Term {
+	if p.predDone[g] {
+		return p.predMemo[g]
+	}
+	if p.pathsBusy[g] || g == nil || !g.isHandWritten() || g.Body == nil || len(g.Res) != 1 {
+		return nil
+	}
+	p.predDone[g] = true
+	if b, ok := g.Res[0].Type().Underlying().(*types.Basic); !ok || b.Kind() != types.Bool {
+		return nil
+	}
+	if pk := g.pkgName(); pk != "keeper" && pk != "service" && pk != "types" {
+		return nil
+	}
+	paths := p.PathsOf(g)
+	if len(paths) == 0 || len(paths) > 8 {
+		return nil
+	}
+	var def *Term
+	for _, pa := range paths {
+		if pa.Exit != ExitSuccess || len(pa.Ret) != 1 {
+			return nil
+		}
+		for _, ev := range pa.Events {
+			switch ev.Kind {
+			case EvFact, EvReturn, EvIndex:
+			case EvCall:
+				// calls of opaque pure accessors only (no module callee with a body, no store / bank / dyn)
+				if ev.CI.fn != nil || ev.CI.name == "dyn" || p.classifyCall(g, ev) != nil {
+					return nil
+				}
+			default:
+				return nil
+			}
+		}
+		conj := pa.Ret[0]
+		facts := pa.AllFacts().Sorted()
+		af := pa.AllFacts()
+		for i := len(facts) - 1; i >= 0; i-- {
+			f := af[facts[i]]
+			ft := f.T
+			if f.Neg {
+				ft = mk("!", ft)
+			}
+			conj = mk("&&", ft, conj)
+		}
+		if def == nil {
+			def = conj
+		} else {
+			def = mk("||", def, conj)
+		}
+	}
+	def = boolSimplify(def)
+	// must be expressed over parameters only
+	ok := true
+	def.Walk(func(x *Term) bool {
+		if x.Op == "" && strings.HasPrefix(x.At, "U") && len(x.At) > 1 && x.At[1] >= '0' && x.At[1] <= '9' {
+			ok = false
+		}
+		if x.Op == "var" || x.Op == "?" || x.Op == "phi" {
+			ok = false
+		}
+		return ok
+	})
+	if !ok {
+		return nil
+	}
+	p.predMemo[g] = def
+	return def
+}
+
+// outSummary: the value a module function leaves behind a pointer-to-struct parameter when it commits
+// (the same on every committed path), expressed over its parameters; nil if it does not write it or paths differ.
+func (p *Prog) outSummary(g *Func, i int) *Term {
+	if p.pathsBusy[g] || !g.isHandWritten() || g.Body == nil || i >= len(g.Params) {
+		return nil
+	}
+	var common *Term
+	n := 0
+	for _, pa := range p.PathsOf(g) {
+		if !pa.OK() {
+			continue
+		}
+		n++
+		t := pa.Out[i]
+		if t == nil {
+			t = atom(fmt.Sprintf("P%d", i))
+		}
+		if common == nil {
+			common = t
+		} else if !common.Eq(t) {
+			return nil
+		}
+	}
+	if n == 0 || common == nil || common.IsAt(fmt.Sprintf("P%d", i)) {
+		return nil
+	}
+	return common
 }
 
 // classifyErr decides whether an error-typed return term is nil.
